@@ -63,6 +63,8 @@ fn build_base(seed: u64, i: usize) -> Base {
     let mut r_plan = base.sub("plan");
     let mut knobs = Knobs::random(&mut r_proj);
     knobs.dup_params = false;
+    // the base project has no failure of its own: one name, one definition
+    knobs.shared_names = false;
     let shape = ProjectShape { max_files: 3, min_defs: 1, max_defs: 5, with_main: true, pragma_always: true, name_suffix: String::new() };
     let mut project = gen::gen_project(&mut r_proj, &knobs, &shape);
     if r_proj.chance(1, 3) {
